@@ -20,10 +20,21 @@
     shorter than 2^31 characters.  The two `u32` subtractions `(ch as u32) - ('0' as u32)` (lines 483, 493) DO wrap
     for characters below `'0'`; the crate is built with `overflow-checks = false` (its own Cargo.toml says so for
     the dev profile too), so this is a wrap and not a panic, and it is modelled as a wrap (`reDigit`).
+    The `usize` subtractions `ndigits_total - ndigits_before` (lines 414, 439) cannot go below zero (the total starts
+    at `ndigits_before` and only grows).  The one subtraction that would go below zero if its guard failed — the
+    unclamped `0x3040000000000000 - (rrlz << 49)` of line 344 — is modelled as a panic site.
+
+  The panic sites (each is an explicit `.panic` / `.error`; `DecProofs/Properties/C04Scan.lean` proves none fires):
+    line 261 `&str[ps..]`, line 276 `&str[ps + 1..]`, line 344 (above), `buffer[n] = c` in the three digit loops
+    (lines 379/381, 401/403, 426/428), line 474 `c.unwrap()`, line 485/487 `char::to_digit(c.unwrap(), 10).unwrap()`.
+  The `unwrap`s of lines 260, 312, 377–432, 483, 493 sit directly behind their own `is_some()` test
+  (`c.is_none() || …`, `c.is_some() && …`, `if c.is_some() {`) and are pattern matches here.
 
   What is NOT modelled: the numeric phase (lines 506–643).  `.number l sticky` hands over exactly the state that
   phase reads: the sign, the stored digits (at most 100), `right_radix_leading_zeros`, the digit counts and the
-  exponent, packed into a `Literal` as described at `finishScan`.
+  exponent, packed into a `Literal` as described at `finishScan`.  (That phase indexes `buffer` at fixed positions
+  below `ndigits_total.min(100)` and unwraps `to_digit(buffer[34])` only when `ndigits_total > 34`; its input space is
+  bounded by the 100 stored digits and is exercised by the differential tests, not by this model.)
 -/
 import DecModel.Str
 
@@ -288,7 +299,7 @@ def scanSigned (s : List Nat) (ps c : Nat) (t : List Nat) : ScanOutcome :=
   | some range =>
     if isInfText range then
       if c == 43 then .inf false else if c == 45 then .inf true else .nan false
-    else if hasSnanPrefix range then
+    else if (c == 43 || c == 45) && hasSnanPrefix range then     -- line 291: only after a sign
       if c == 45 then .snan true else .snan false
     else
       scanBody (c == 45) (if c == 45 || c == 43 then t else c :: t)
